@@ -251,6 +251,8 @@ func (ex *Exec) verifyFunction(fn *ssa.Function, con *Contract) (rep *FuncReport
 		ex.oblige(fr, top, "ensures", cl.Label, And(parts...), token.NoPos, cl.Text)
 	}
 	ex.valueOrErrorObligation(fr, fn)
+	// reachability guard: some return must be reachable under everything assumed on the way
+	ex.reachCheck(fr, res.st, "return-reachable")
 	env := mkEnv(res.st, res.vals)
 	if con.TrustedFrame {
 		ex.assumed["frame (modifies clause) of "+fr.label+" is assumed, not checked on its body"] = true
@@ -344,7 +346,7 @@ func (ex *Exec) frameObligations(fr *Frame, kind string, entry, fin *State, modC
 			ex.spec++
 			v := oenv.eval(pc.expr)
 			ex.spec--
-			switch pc.info.Types[pc.expr].Type.Underlying().(type) {
+			switch oenv.resolve(pc.info.Types[pc.expr].Type).Underlying().(type) {
 			case *types.Map:
 				mods = append(mods, modItem{kind: "map", addr: v.(*Term)})
 			case *types.Slice:
